@@ -21,6 +21,7 @@ def time(s=""):
 
 time()
 import copy
+import re
 
 import astroid
 
@@ -139,7 +140,9 @@ def compile_code(
     if "pytrapic:" in main_module:
         # directives apply to this compilation only, not to the caller's object
         options = copy.copy(options)
-        for line in main_module.splitlines():
+        # source lines as Python sees them: str.splitlines() would also split at
+        # form feeds and U+2028, i.e. inside a code line or a string literal
+        for line in re.split(r"\r\n|\r|\n", main_module):
             if "pytrapic:" not in line:
                 continue
             line = line.strip()
